@@ -64,31 +64,33 @@ func MalformWith(which int, op *spb.AFTOperation) string {
 		return ""
 	case "zeroNHInGroup":
 		if t, ok := op.Entry.(*spb.AFTOperation_NextHopGroup); ok && t.NextHopGroup.NextHopGroup != nil {
-			// every listed next-hop gets index zero: the outcome does not then depend on the
-			// order in which the implementation walks the group.
-			t.NextHopGroup.NextHopGroup.NextHop = []*aftpb.Afts_NextHopGroup_NextHopKey{{Index: 0, NextHop: &aftpb.Afts_NextHopGroup_NextHop{Weight: uv(1)}}}
+			// a next-hop with index zero, either alone or next to the group's other next-hops
+			// (installed or not): the group is invalid whatever else it lists
+			zero := &aftpb.Afts_NextHopGroup_NextHopKey{Index: 0, NextHop: &aftpb.Afts_NextHopGroup_NextHop{Weight: uv(1)}}
+			zeroCount++
+			if zeroCount%3 == 0 {
+				t.NextHopGroup.NextHopGroup.NextHop = []*aftpb.Afts_NextHopGroup_NextHopKey{zero}
+			} else {
+				t.NextHopGroup.NextHopGroup.NextHop = append(t.NextHopGroup.NextHopGroup.NextHop, zero)
+			}
 		}
 		return ""
 	case "badPrefix":
 		switch t := op.Entry.(type) {
 		case *spb.AFTOperation_Ipv4:
+			// a key that is not a prefix names nothing that could be installed: ADD and DELETE alike
+			// are invalid operations
 			t.Ipv4.Prefix = "not-a-prefix"
-			if !del {
-				return "bad"
-			}
+			return "bad"
 		case *spb.AFTOperation_Ipv6:
 			t.Ipv6.Prefix = "1.2.3.4/33"
-			if !del {
-				return "bad"
-			}
+			return "bad"
 		}
 		return ""
 	case "labelRange":
 		if t, ok := op.Entry.(*spb.AFTOperation_Mpls); ok {
 			t.Mpls.Label = &aftpb.Afts_LabelEntryKey_LabelUint64{LabelUint64: 1048576 + t.Mpls.GetLabelUint64()}
-			if !del {
-				return "bad"
-			}
+			return "bad"
 		}
 		return ""
 	case "unknownGroupNI":
